@@ -246,7 +246,9 @@ def _validation(case, out):
                 ok = (c in _TICKSET) if ladder == "CLASSIC" else (101 <= c <= 100000)
                 if refused == ok:
                     out.v("ladder-validation-differs", {"ladder": ladder, "expected_valid": ok}, price=p, refused=refused)
-        for lo, hi, iv in ((0.5, 100.5, 1.0), (0.0, 60.0, 1.0), (0.5, 20.5, 0.5), (-10.5, 10.5, 0.5), (100.0, 400.0, 1.0)):
+        # several markets' ranges go through the one control instance, including ranges that share their ends but not their interval, in both orders
+        ranges = ((0.5, 100.5, 1.0), (0.0, 60.0, 1.0), (0.5, 20.5, 0.5), (-10.5, 10.5, 0.5), (100.0, 400.0, 1.0), (0.5, 100.5, 0.5), (0.0, 60.0, 0.5), (0.5, 20.5, 1.0), (-10.5, 10.5, 1.0))
+        for lo, hi, iv in ranges + ranges[::-1]:
             info = LineRangeInfo(marketUnit="x", interval=iv, minUnitValue=lo, maxUnitValue=hi)
             valid = set(L.line_prices(lo, hi, iv))
             k = lo - 2
